@@ -271,12 +271,12 @@ pub fn abs_decision(d: cedar_policy::Decision) -> Decision {
 pub fn abs_response(r: &cedar_policy::Response) -> Resp {
     Resp {
         decision: abs_decision(r.decision()),
-        reasons: r.diagnostics().reason().map(|p| p.to_string()).collect(),
+        reasons: r.diagnostics().reason().map(|p| AsRef::<str>::as_ref(p).to_string()).collect(),
         errors: r
             .diagnostics()
             .errors()
             .map(|e| match e {
-                cedar_policy::AuthorizationError::PolicyEvaluationError(pe) => pe.policy_id().to_string(),
+                cedar_policy::AuthorizationError::PolicyEvaluationError(pe) => AsRef::<str>::as_ref(pe.policy_id()).to_string(),
             })
             .collect(),
     }
